@@ -178,7 +178,7 @@ def condTable (o : Opts) (a : Attrs) (opt : Bool) (nKids : Nat) : List (Bool × 
    (!a.literals.isEmpty, IMPORT_LITERAL)] ++
   (if o.genericCont then
     (if o.stdColl then
-      [(a.isList, IMPORT_ABC_SEQUENCE), (a.isSet, IMPORT_ABC_SET), (a.isDict, IMPORT_ABC_MAPPING)]
+      [(a.isList, IMPORT_ABC_SEQUENCE), (a.isSet, IMPORT_FROZEN_SET), (a.isDict, IMPORT_ABC_MAPPING)]
      else [(a.isList, IMPORT_SEQUENCE), (a.isSet, IMPORT_FROZEN_SET), (a.isDict, IMPORT_MAPPING)])
    else if !o.stdColl then [(a.isList, IMPORT_LIST), (a.isSet, IMPORT_SET), (a.isDict, IMPORT_DICT)]
    else [])
